@@ -303,6 +303,31 @@ def run(ctx):
                     if "std::fs::Metadata" not in (tt.j.get("callee_inst") or tt.callee or ""):
                         ok = False
             ctx.ob("R2", "accessor:%s" % var, ok, "directive %s reads %s; oracle: %s and none of %s" % (var, sorted(names & (must | forbid | stat_fields)), sorted(must), sorted(forbid)), fn=fd, where=prim.site(fd, tgt), how="variant dispatch table")
+        # %h: "the part before the last component ('.' when there is none)": the constant "." is produced exactly under
+        # `parent == ""` (a path of one component has the empty parent), never under another comparison
+        if "Dirname" in regions:
+            tgt, reg = regions["Dirname"]
+            dots = []
+            for x in sorted(reg):
+                tt = fd.blocks[x].term
+                cands_ = [prim.resolve_promoted(fd, prim.origin_of_operand(fd, a_)).strip() for a_ in (tt.args if tt.k == "call" else [])]
+                for s_ in fd.blocks[x].stmts:
+                    if s_.rv is not None and s_.rv.k in ("use", "agg") and s_.rv.ops:
+                        cands_ += [prim.resolve_promoted(fd, prim.origin_of_operand(fd, o_)).strip() for o_ in s_.rv.ops]
+                if any(c_.k == "const" and c_.a.get("v") == "." for c_ in cands_):
+                    eqs = []
+                    for gd in prim.dominating_guards(fd, x):
+                        if gd["bb"] not in reg and gd["bb"] != tgt:
+                            continue
+                        pr = prim.resolve_promoted(fd, gd["pred"]).strip()
+                        if pr.k == "call" and pr.a["name"] in ("eq", "ne") and gd["bool"] is not None:
+                            lit = [c.get("v") for c in pr.consts() if c.get("k") == "str"]
+                            if len(lit) == 1 and ((pr.a["name"] == "eq") == (gd["bool"] is True)):
+                                eqs.append((lit[0], any(c.a["name"] == "parent" for c in prim.expand_single_def_vars(fd, pr).call_nodes())))
+                    dots.append((x, eqs))
+            okh = bool(dots) and all(len(eqs) == 1 and eqs[0] == ("", True) for _, eqs in dots)
+            ctx.ob("R2", "%h-dot-iff-no-directory-part", okh, "%%h yields \".\" under the comparisons %s; oracle: exactly when the path's parent() is the empty path (the path has one component)" % [eqs for _, eqs in dots],
+                   fn=fd, where=prim.site(fd, tgt), how="constant + dominating guard inside the arm")
         # records come through WalkEntry::metadata of this entry (the `meta` closure)
         meta_cl = [c for c in prog.closures_of(fd)]
         okm = False
